@@ -5,7 +5,8 @@
    feasible event history: at most one outcome per attempt, no silence and no wedged peer at
    quiescence) and per-handler theorems (hold for every manager state and configuration). *)
 From Coq Require Import List NArith Bool.
-From V.Mgr Require Import Model Caps Ledger LedgerInv.
+From V.C10 Require Import Model.
+From V.Mgr Require Import DialShape DialShapeProofs Model Caps Ledger LedgerInv.
 Import ListNotations.
 Open Scope N_scope.
 
@@ -65,6 +66,47 @@ Example C05_feasible_history :
   (let '(m, g) := lrun L init g0 es in
    quiescent m g /\ map fst (g_att g) = [3; 2; 0] /\ g_done g = [3; 2; 1] /\ g_super g = [0]).
 Proof. vm_compute. repeat split; auto. Qed.
+
+(* ---- malformed or adversarial addresses handed to dial_address (coq/Mgr/DialShape*.v) ---- *)
+
+(* an address is dialled through TCP for peer q only if it is exactly host/tcp/p2p(q), and then
+   the TCP transport's own parser (C10 model) resolves it to the same peer q *)
+Theorem C05_dial_address_tcp_sound :
+  forall listen a q, dial_shape listen a = SvTcp q ->
+  exists h port ho, a = [h; Tcp port; P2p q] /\ is_host h = true /\
+                    parse TTcp a = Some (ho, port, Some q).
+Proof. exact dial_shape_tcp_sound. Qed.
+Print Assumptions C05_dial_address_tcp_sound.
+
+Theorem C05_dial_address_ws_sound :
+  forall listen a q, dial_shape listen a = SvWs q ->
+  exists h port w ho, a = [h; Tcp port; w; P2p q] /\ is_host h = true /\ (w = Ws \/ w = Wss) /\
+                      parse TWs a = Some (ho, port, Some q).
+Proof. exact dial_shape_ws_sound. Qed.
+Print Assumptions C05_dial_address_ws_sound.
+
+(* every other address is refused with one of three error classes ... *)
+Theorem C05_dial_address_refusals :
+  forall listen a code, dial_shape listen a = SvRefuse code ->
+  code = RET_PEER_ID_MISSING \/ code = RET_SELF' \/ code = RET_NOT_SUPPORTED.
+Proof. exact dial_shape_refusals. Qed.
+Print Assumptions C05_dial_address_refusals.
+
+(* ... and a refused address changes nothing and calls nothing: no stuck peer *)
+Theorem C05_refused_address_unchanged :
+  forall L m a code, limit_reached (max_out L) (outs m) = false ->
+  dial_shape LISTEN a = SvRefuse code -> do_dial_shape L m a = (m, [Ret code]).
+Proof. intros L m a code Hl Hs. unfold do_dial_shape. now rewrite Hl, Hs. Qed.
+Print Assumptions C05_refused_address_unchanged.
+
+(* the check before the `fix:` commit accepted an address for one peer that the TCP transport
+   dials as another peer (reproduced on the real code: debug_assert!(false), or a peer stuck in
+   Dialing in release builds) *)
+Theorem C05_dial_address_unfixed_refuted :
+  exists a q q', dial_shape_unfixed [] a = SvTcp q /\
+                 (exists ho port, parse TTcp a = Some (ho, port, Some q')) /\ q <> q'.
+Proof. exact dial_shape_unfixed_refuted. Qed.
+Print Assumptions C05_dial_address_unfixed_refuted.
 
 (* ---- per-handler theorems ---- *)
 
